@@ -331,7 +331,10 @@ class TMix:
     def kill_server(s, srvr):
         OBS.ev('ServerOff', s.id_number, srvr.id_number, 1 if srvr.busy else 0, tk(srvr.shift_end),
                tk(s.next_event_date), tk(s.simulation.current_time), tk(srvr.start_date))
-        return super().kill_server(srvr)
+        r = super().kill_server(srvr)
+        # the server's final books, as filed into all_servers_busy / all_servers_total
+        OBS.ev('ServerGone', s.id_number, srvr.id_number, tk(srvr.start_date), tk(srvr.busy_time), tk(srvr.total_time), tk(s.now))
+        return r
 
     def add_new_servers(s, n):
         OBS.ev('ServersOn', s.id_number, n, s.highest_id)
